@@ -97,6 +97,12 @@ def _dispatch(ex, st, f, args, kwargs, node):
         yield st, V("dict", S.dict_set(dt, box(args[1]), box(args[2])))
     elif k == "specident" and f.val == "bv_to_int":
         yield st, V("int", ex.as_int(ex.narrow(st, args[0]) if args[0].ty == "py" else args[0]))
+    elif k == "specident" and f.val == "is_data":
+        a = args[0]
+        if isinstance(a, V) and a.ty in ("py", "obj"):
+            yield st, V("bool", z3.Not(z3.And(Py.is_obj(box(a)), Py.cls(box(a)) == 7)))
+        else:
+            yield st, S.mk_bool(True)
     elif k == "specident" and f.val == "seq_items":
         d = ex.narrow(st, args[0])
         if d.ty in ("list", "tuple"):
@@ -422,10 +428,18 @@ def pylen(t):
 def bind_args(ex, st, fi_node, selfref, args, kwargs, modname):
     """-> dict param -> value (defaults evaluated in the callee's module scope)"""
     a = fi_node.args
-    if a.vararg or a.kwarg:
+    if a.vararg:
         raise _U("varargs callee")
     params = [p.arg for p in a.posonlyargs + a.args]
+    if a.kwarg:
+        # **kwargs swallows the keyword arguments that name no parameter; the parameter itself is
+        # bound to an opaque host value (a body that reads it is outside the subset)
+        known = set(params) | {p.arg for p in a.kwonlyargs}
+        extra = {k: v for k, v in kwargs.items() if k not in known}
+        kwargs = {k: v for k, v in kwargs.items() if k in known}
     bound = {}
+    if a.kwarg:
+        bound[a.kwarg.arg] = Const("kwargs", extra)
     pos = list(args)
     if selfref is not None:
         pos = [selfref] + pos
